@@ -37,8 +37,8 @@ type appWorld struct {
 type appWeights struct {
 	stake, edit, transfer, unstake, param, send int
 	unstakeSecs                                 []int
-	maxAppsSlack                                []int // MaxApplications = genesis apps + one of these
-	honestTransfer                              int   // out of 10 transfers, this many are drawn as clean ones (staked app -> key without record, own signature)
+	maxAppsSlack                                []int                     // MaxApplications = genesis apps + one of these
+	honestTransfer                              int                       // out of 10 transfers, this many are drawn as clean ones (staked app -> key without record, own signature)
 	preferUnstake                               func(addrHex string) bool // optional: staked applications the begin-unstake generator picks half of the time
 }
 
